@@ -128,10 +128,10 @@ func (fr *Frame) execBuiltin(st *State, f *ssa.Builtin, c *ssa.CallCommon, args 
 			fr.defVal(res, n)
 			v.smt.assert(and("(>= "+fr.vals[res].T+" 0)", "(< "+fr.vals[res].T+" 9223372036854775808)"))
 		case *types.Map:
-			n := app(v.smt.declareFun("map.len", []string{"Int"}, "Int"), argT(0))
-			fr.defVal(res, n)
+			mt := c.Args[0].Type().Underlying().(*types.Map)
+			fr.defVal(res, v.mapLen(st, mt, argT(0)))
 			v.smt.assert("(>= " + fr.vals[res].T + " 0)")
-			v.smt.note("len(map) is uninterpreted (>= 0)")
+			v.smt.note("len(map) is an uninterpreted function (>= 0) of the map's current key set")
 		case *types.Chan:
 			n := v.smt.fresh("chanlen", "Int")
 			v.smt.assert("(>= " + n + " 0)")
@@ -685,6 +685,23 @@ func (fr *Frame) siteAssertsCall(st *State, c *ssa.CallCommon, args []Val, pos t
 			field = want[i+1 : len(want)-1]
 			want = want[:i]
 		}
+		if i := strings.LastIndex(want, "."); i >= 0 {
+			// call T.Method: the callee's receiver (or interface) type is named T
+			rt := ""
+			if c.IsInvoke() {
+				if n, ok := types.Unalias(c.Value.Type()).(*types.Named); ok {
+					rt = n.Obj().Name()
+				}
+			} else if f, ok := c.Value.(*ssa.Function); ok && f.Signature.Recv() != nil {
+				if n, ok := types.Unalias(deref(f.Signature.Recv().Type())).(*types.Named); ok {
+					rt = n.Obj().Name()
+				}
+			}
+			if rt != want[:i] {
+				continue
+			}
+			want = want[i+1:]
+		}
 		if want != callee {
 			continue
 		}
@@ -730,6 +747,7 @@ func (fr *Frame) siteAssertsCall(st *State, c *ssa.CallCommon, args []Val, pos t
 		v.siteCount["assert."+as.Label]++
 		o := v.addObl(st, "assert", fmt.Sprintf("%s#%d", as.Label, v.siteCount["assert."+as.Label]), g, as.Cl.Text, pickProps(as.Cl, v.fc.Serves), pos)
 		o.Extra = extra
+		o.Group = as.Cl.Group
 		v.assertHits[as.Label]++
 	}
 }
@@ -758,6 +776,7 @@ func (fr *Frame) siteAsserts(st *State, kind string, addr ssa.Value, args []Val,
 		v.siteCount["assert."+as.Label]++
 		o := v.addObl(st, "assert", fmt.Sprintf("%s#%d", as.Label, v.siteCount["assert."+as.Label]), g, as.Cl.Text, pickProps(as.Cl, v.fc.Serves), pos)
 		o.Extra = extra
+		o.Group = as.Cl.Group
 		v.assertHits[as.Label]++
 	}
 }
@@ -768,6 +787,7 @@ type mapIter struct {
 	m       string
 	mt      *types.Map
 	visited string // ghost key
+	count   string // ghost key: number of keys produced
 	dom0    string
 }
 
@@ -785,7 +805,10 @@ func (fr *Frame) execRange(st *State, x *ssa.Range) {
 	vk := ki.Key
 	v.setHeap(st, vk, fmt.Sprintf("((as const (Array %s Bool)) false)", ks))
 	dom0 := v.smt.define("range.dom0", "(Array "+ks+" Bool)", ite("(= "+m+" 0)", fmt.Sprintf("((as const (Array %s Bool)) false)", ks), sel(v.heap(st, dk), m)))
-	fr.vals[x] = Val{Iter: &mapIter{m: m, mt: mt, visited: vk, dom0: dom0}}
+	ck := visitCountKey(x)
+	v.ensureKey(ck)
+	v.setHeap(st, ck.Key, "0")
+	fr.vals[x] = Val{Iter: &mapIter{m: m, mt: mt, visited: vk, dom0: dom0, count: ck.Key}}
 }
 
 func (fr *Frame) execNext(st *State, x *ssa.Next) {
@@ -807,6 +830,10 @@ func (fr *Frame) execNext(st *State, x *ssa.Next) {
 	val := v.smt.define(fr.name(x)+".v", v.smt.sortOf(it.mt.Elem()), sel(sel(v.heap(st, vk), it.m), key))
 	v.smt.assert(v.closedFact(val, it.mt.Elem(), v.alloc(st), 0))
 	v.setHeap(st, it.visited, ite(ok, sto(vis, key, "true"), vis))
+	if it.count != "" {
+		n := v.heap(st, it.count)
+		v.setHeap(st, it.count, ite(ok, "(+ "+n+" 1)", n))
+	}
 	fr.vals[x] = Val{Tuple: []Val{{T: ok}, {T: key}, {T: val}}}
 }
 
@@ -933,8 +960,17 @@ func (fr *Frame) siteAssertsNamed(st *State, kind string, pos token.Pos) {
 		v.siteCount["assert."+as.Label]++
 		o := v.addObl(st, "assert", fmt.Sprintf("%s#%d", as.Label, v.siteCount["assert."+as.Label]), g, as.Cl.Text, pickProps(as.Cl, v.fc.Serves), pos)
 		o.Extra = extra
+		o.Group = as.Cl.Group
 		v.assertHits[as.Label]++
 	}
 }
 
 func (v *FnVerifier) noMonitor() bool { return v.fc != nil && v.fc.Opts["nomonitor"] != "" }
+
+// mapLen: len(m) as an uninterpreted function of the current key set of m (0 for a nil map).
+func (v *FnVerifier) mapLen(st *State, mt *types.Map, m string) string {
+	dk, _ := v.mapKeys(mt)
+	ks := v.smt.sortOf(mt.Key())
+	f := v.smt.declareFun("map.len!"+sanitize(ks), []string{"(Array " + ks + " Bool)"}, "Int")
+	return ite("(= "+m+" 0)", "0", app(f, sel(v.heap(st, dk), m)))
+}
